@@ -116,6 +116,10 @@ class Rule:
         self.ctx.reports.append(Report(self.ctx.prop, self.id, file, function, line, construct, message, instance))
 
     def check(self, cond, instance, file, function, line, construct, message, detail=None):
+        if cond is None:
+            # three-valued recognisers: None = "the construction is written in a way the rule does not read" - a limit of
+            # the analysis (exit 2), never a verdict
+            raise AnalysisError("rule %s, %s: construction not recognised: %s" % (self.id, instance, message))
         if cond:
             self.ok(instance, detail)
         else:
